@@ -219,7 +219,9 @@ func buildZones(pt *point, froms []string) map[string]answer {
 
 // ---- From header shapes ----
 
-var oneKinds = []string{"bare", "display-name", "encoded-word", "comment", "folded", "group-of-one", "lower-case-field", "no-space", "address-in-display-name", "angle-only"}
+var oneKinds = []string{"bare", "display-name", "encoded-word", "comment", "folded", "group-of-one", "lower-case-field", "no-space", "address-in-display-name", "angle-only",
+	// valid RFC 5322 local parts that are not plain atoms (one author address each)
+	"quoted-local-part", "quoted-local-part-with-at-sign", "quoted-local-part-with-at-sign-angle", "dotted-plus-local-part", "utf8-local-part"}
 
 func oneHeader(kind int, d string) (string, string) {
 	k := oneKinds[kind%len(oneKinds)]
@@ -242,6 +244,16 @@ func oneHeader(kind int, d string) (string, string) {
 		return k, "FROM:user@" + d + "\r\n"
 	case "address-in-display-name":
 		return k, "From: \"ceo@example.com\" <user@" + d + ">\r\n"
+	case "quoted-local-part":
+		return k, "From: \"john doe\"@" + d + "\r\n"
+	case "quoted-local-part-with-at-sign":
+		return k, "From: \"sales@dept\"@" + d + "\r\n"
+	case "quoted-local-part-with-at-sign-angle":
+		return k, "From: Sales <\"sales@example.com\"@" + d + ">\r\n"
+	case "dotted-plus-local-part":
+		return k, "From: first.last+tag=x@" + d + "\r\n"
+	case "utf8-local-part":
+		return k, "From: J\xc3\xbcrgen <j\xc3\xbcrgen@" + d + ">\r\n"
 	default:
 		return k, "From: <user@" + d + ">\r\n"
 	}
